@@ -14,7 +14,7 @@ from vpc.core import cN, cbool, clist, copt, cstr, cpair
 IMPORTS = "Require Import V.model.SvcArgs."
 THEOREMS = ["install_upgrade_equiv", "upgrade_keeps_definition", "upgrade_port_is_the_only_difference",
             "every_installed_flag_is_known", "interp_install_is_intended", "written_args_conflict_free",
-            "builders_match_source"]
+            "builders_match_source", "network_id_reaches_protocol_strings"]
 RULE = ("option combinations over 27 parameters (peers: first/local/addrs/urls/testnet/ignore-cache/cache dir; "
         "network id, home-network, log format, upnp, ip, node/metrics/rpc ports, metrics server, owner (incl. upper "
         "case), log-file limits, rewards address, EVM network incl. custom, auto-restart, environment, user, user "
@@ -179,9 +179,19 @@ def upgrade_env(c):
 def model_term(c, o):
     if "panic" in o or "add_error" in o or "upgrade_error" in o:
         return "false"
-    return "agree_ctxs %s %s %s (mkU false %s) %s %s" % (
+    t = "agree_ctxs %s %s %s (mkU false %s) %s %s" % (
         c_cfg(c, o), c_env(c["env"]), copt(c["observed_port"], cN), c_env(upgrade_env(c)),
         c_ctx(o["install"]), c_ctx(o["upgrade"]))
+    # what the node reports it runs with == the model's protocol strings for this configuration
+    for which in ("install", "upgrade"):
+        r = (o.get("antnode") or {}).get(which)
+        if r and r["code"] == 0:
+            pr = protocol_report(r)
+            if pr is None or pr["held_identify_protocol"] != pr["identify_protocol"]:
+                return "false"
+            t += " && agree_protocol %s %s %s" % (c_cfg(c, o), cstr(pr["network_id"]), clist(
+                [cstr(pr[k]) for k in ("identify_node", "identify_client", "req_response", "identify_protocol")]))
+    return t
 
 
 def show(c, o):
@@ -250,6 +260,17 @@ HARNESS_FILES = {"$B/antnode", "$B/data/antnode1/antnode", "$B/node_registry.jso
 DEFAULT_CACHE_DIR = "$B/home/.local/share/autonomi/bootstrap_cache/"
 
 
+PROTO_KEYS = ("network_id", "held_identify_protocol", "identify_protocol", "identify_node", "identify_client", "req_response")
+
+
+def protocol_report(r):
+    m = re.search(r"^VERIF_PROTOCOL (.*)$", r.get("dump", ""), re.M)
+    if not m:
+        return None
+    d = dict(re.findall(r'(\w+)="([^"]*)"', m.group(1)))
+    return d if all(k in d for k in PROTO_KEYS) else None
+
+
 def effects(c, o, which, r):
     """arguments whose interpretation is an EFFECT: after antnode's real start-up (root dir + key, logging, first
     bootstrap-cache flush, HOME inside the scratch dir) every file must be where the definition says"""
@@ -280,6 +301,17 @@ def effects(c, o, which, r):
     other = [f for f in files if f not in keys and f not in logs and f not in caches]
     if other:
         bad.append("unexpected file(s) %s" % other)
+    # the run-time configuration derived from the arguments: network id and the protocol strings
+    net_bad = None
+    pr = protocol_report(r)
+    want_id = str(c["network_id"] if c["network_id"] is not None else 1)
+    if pr is None:
+        bad.append("antnode did not report its network id / protocol strings")
+    else:
+        wrong = {k: v for k, v in pr.items() if (k == "network_id" and v != want_id) or
+                 (k != "network_id" and not v.endswith("/" + want_id))}
+        if wrong:
+            net_bad = "network id %s is not what the node runs with: %s" % (want_id, wrong)
     net = re.search(r"^EVM network: (\w+)", r["dump"], re.M)
     want_net = "Custom" if isinstance(rec["evm"], dict) else {"evm-arbitrum-one": "ArbitrumOne", "evm-arbitrum-sepolia": "ArbitrumSepolia"}[rec["evm"]]
     if not net or net.group(1) != want_net:
@@ -288,7 +320,10 @@ def effects(c, o, which, r):
         low = r["dump"].lower()
         if rec["evm"]["token"].lower() not in low or rec["evm"]["payments"].lower() not in low:
             bad.append("effective custom EVM network does not carry the configured contract addresses")
-    return [("effect-at-intended-location", "%s-time arguments: %s" % (which, "; ".join(bad)))] if bad else []
+    out = [("effect-at-intended-location", "%s-time arguments: %s" % (which, "; ".join(bad)))] if bad else []
+    if net_bad:
+        out.append(("network-id-not-effective", "%s-time arguments: %s" % (which, net_bad)))
+    return out
 
 
 def pairs(args):
@@ -367,7 +402,11 @@ def nontrivial(c, o):
 def build_antnode(ctx, timeout=3000):
     """the antnode binary from the same tree, with the verif cfg (early exit printing the parsed options)"""
     env = dict(os.environ)
-    env.update({"CARGO_NET_OFFLINE": "true", "CARGO_TARGET_DIR": core.TARGET, "RUSTFLAGS": "--cfg %s -Awarnings" % core.GUARD})
+    # its own target dir: ant-networking is also a cdylib, so cargo writes deps/libant_networking.rlib WITHOUT a
+    # hash; in a target dir shared with the harness workspace (other features / profile) the two builds overwrite
+    # each other's rlib while both fingerprints stay "fresh", and antnode then fails to link against the wrong one
+    target = core.TARGET + "-antnode"
+    env.update({"CARGO_NET_OFFLINE": "true", "CARGO_TARGET_DIR": target, "RUSTFLAGS": "--cfg %s -Awarnings" % core.GUARD})
     env.setdefault("CARGO_INCREMENTAL", "0")
     with core.Lock("cargo"):
         rc, out = core.sh("timeout %d cargo build --offline -p ant-node --bin antnode 2>&1" % timeout, cwd=core.REPO, env=env,
@@ -375,7 +414,7 @@ def build_antnode(ctx, timeout=3000):
     if rc != 0:
         ctx.tie_break("harness-build", "antnode", "the antnode binary no longer builds with the verif cfg:\n" + out[-4000:])
         return None
-    return os.path.join(core.TARGET, "debug", "antnode")
+    return os.path.join(target, "debug", "antnode")
 
 
 def run(ctx):
